@@ -10,7 +10,7 @@ LEVEL = "fault_enumeration"
 LEVEL_TEXT = ("Complete enumeration of base program (9 programs whose lines contain every construct that touches line bookkeeping: ; and "
               "/* */ comments, multi-line comments, blank lines, indentation, blocks, named scopes, macro definitions and applications, "
               "loops, conditionals, data lists, quoted strings, bare mnemonics with trailing comments, long files, form feed / NEL / U+2028 inside comments and strings) x every "
-              "line boundary where a statement can stand x 14 faulty statements (undefined symbol in an operand / in .db, bad size "
+              "line boundary where a statement can stand x 38 faulty statements (24 further single-statement error classes: undefined macro, too few arguments, out-of-range branch, unmapped *=, missing files, ...; undefined symbol in an operand / in .db, bad size "
               "suffix, bad index register, unterminated string before a newline / at end of input / ending in a backslash, an undefined symbol on a continuation line of a statement that spans lines) x 4 indentations (none, spaces, tab, mixed; for one program also after a 40000 / 70000 / 140000-character comment on the same line) x 3 file "
               "situations (main file; inside an included file; in the main file after an include). The reported text must name the "
               "right file and zero-based line, quote that line, and for lexical errors give the column of the offending character. "
@@ -152,7 +152,34 @@ FAULTS = {
     "undefined-symbol-on-a-continuation-line": (".dw 1,\n    nosuchsymbol,\n    3", None),
     "undefined-symbol-on-the-last-continuation-line": (".db 1,\n 2,\n nosuchsymbol", None),
     "undefined-operand-on-the-next-line": ("lda.w #\n   nosuchsymbol", None),
+    # every other class of statement-specific failure: the report must name the statement's file and line and quote it
+    # (third element: zero-based line of the faulty statement inside the inserted text, when valid definitions precede it)
+    "empty-size-suffix": ("lda.", 4),
+    "mode-the-mnemonic-lacks": ("sta #0x12", None),
+    "width-the-mode-lacks": ("lda.l #0x123456", None),
+    "index-the-mode-lacks": ("lda [0x12],x", None),
+    "index-the-mnemonic-lacks": ("dec.b 1,y", None),
+    "text-without-table": (".text 'abc'", None),
+    "undefined-macro": ("nosuchmacro(1)", None),
+    "too-few-macro-arguments": (".macro c17m(p, q) {\n.db p, q\n}\nc17m(1)", None, 3),
+    "out-of-range-branch": ("bra 0x01f000", None),
+    "branch-to-ram": ("bra 0x7e0000", None),
+    "undefined-symbol-in-assignment": ("c17k := nosuchsymbol + 1", None),
+    "undefined-symbol-in-loop-bound": (".for c17i := 0, nosuchsymbol {\n.db 1\n}", None),
+    "undefined-symbol-in-ips-delta": (".include_ips 'ok.ips', nosuchsymbol", None),
+    "org-to-unmapped-bank": ("*=0x700000", None),
+    "missing-include": (".include 'nosuchfile.s'", None),
+    "missing-incbin": (".incbin 'nosuchfile.bin'", None),
+    "missing-table": (".table 'nosuchfile.tbl'", None),
+    "missing-include-ips": (".include_ips 'nosuchfile.ips', 0", None),
+    "malformed-ips-file": (".include_ips 'notips.bin', 0", None),
+    "splice-undefined": ("{{c17nosuchblock}}", None),
+    "unsupported-operator-in-if": (".if 1 == 1 {\n.db 1\n}", None),
+    "unsupported-operator-in-data": (".db 2 > 1", None),
+    "undefined-symbol-in-unused-assignment": ("c17u = nosuchsymbol + 1", None),
+    "undefined-symbol-in-unused-macro-argument": (".macro c17ig(p) {\n.db 1\n}\nc17ig(nosuchsymbol)", None, 3),
 }
+COMMON_FILES = {"ok.ips": b"PATCH" + bytes([0x00, 0x10, 0x00, 0x00, 0x02, 0x41, 0x42]) + b"EOF", "notips.bin": b"this is not an ips patch"}
 # very long lines: the faulty statement preceded ON ITS LINE by a block comment of this many characters (base 'plain' only)
 LONG_PREFIXES = [40000, 70000, 140000]
 SITUATIONS = ["main", "included", "main-after-include"]
@@ -160,7 +187,7 @@ INC_VALID = "; included helper file\n\nhelper_value = 0x21\n/* with\n a comment 
 
 
 def bound(tier):
-    return "11 base programs x every insertable line boundary x 14 faults (3 of them statements spanning lines) x 4 indentations (none, spaces, tab, mixed; one program also after a 40000/70000/140000-character comment on the same line) x 3 file situations (thorough: + nested include, + the 13 generated programs of the layout check)"
+    return "11 base programs x every insertable line boundary x 38 faults (3 of them statements spanning lines; every single-statement error class) x 4 indentations (none, spaces, tab, mixed; one program also after a 40000/70000/140000-character comment on the same line) x 3 file situations (thorough: + nested include, + the 13 generated programs of the layout check)"
 
 
 def parse_base(text):
@@ -270,7 +297,8 @@ def run_fault(name, fault, sit):
     base = all_bases("thorough" if name.startswith("gen-") else "quick")[name]
     lines, insertable = base[0], base[1]
     extra_files = base[2] if len(base) > 2 else {}
-    stmt, col0 = FAULTS[fault]
+    stmt, col0 = FAULTS[fault][0], FAULTS[fault][1]
+    off = FAULTS[fault][2] if len(FAULTS[fault]) > 2 else 0
     viol = []
     outcomes = set()
     evals = nt = 0
@@ -282,7 +310,7 @@ def run_fault(name, fault, sit):
         if name == "plain":
             indents += ["/* " + "x" * n + " */ " for n in LONG_PREFIXES]
         for indent in indents:
-            faulty = indent + stmt
+            faulty = "\n".join((indent + ln_) if i_ == off else ln_ for i_, ln_ in enumerate(stmt.split("\n")))
             col = None if col0 is None else col0 + len(indent)
             new = lines[:at] + [faulty] + lines[at:]
             if fault == "unterminated-string-at-eof":
@@ -290,17 +318,17 @@ def run_fault(name, fault, sit):
             else:
                 text = "\n".join(new) + "\n"
             if sit == "main":
-                src, files, fname, line_no = text, {}, "main.s", at
+                src, files, fname, line_no = text, {}, "main.s", at + off
             elif sit == "included":
                 src = "; main file\n\n.include 'inc/part.s'\n; after\n"
-                files, fname, line_no = {"inc/part.s": text}, "inc/part.s", at
+                files, fname, line_no = {"inc/part.s": text}, "inc/part.s", at + off
             elif sit == "included-nested":
                 src = "; main file\n.include 'inc/outer.s'\n"
-                files, fname, line_no = {"inc/outer.s": "; outer include\n\n/* c */\n.include 'inc/part.s'\n", "inc/part.s": text}, "inc/part.s", at
+                files, fname, line_no = {"inc/outer.s": "; outer include\n\n/* c */\n.include 'inc/part.s'\n", "inc/part.s": text}, "inc/part.s", at + off
             else:
                 src = "; main\n.include 'inc/ok.s'\n" + text
-                files, fname, line_no = {"inc/ok.s": INC_VALID}, "main.s", at + 2
-            files = dict(extra_files, **files)
+                files, fname, line_no = {"inc/ok.s": INC_VALID}, "main.s", at + 2 + off
+            files = dict(COMMON_FILES, **dict(extra_files, **files))
             out, rep = report_of(src, files)
             evals += 1
             if at > 0:
@@ -315,7 +343,7 @@ def run_fault(name, fault, sit):
                 viol.append({"key": f"location:error-not-reported:{fault}", "msg": f"{ctx}: program with `{stmt}` was accepted :: {src!r}"})
                 outcomes.add("NOT-REPORTED")
                 continue
-            tag = check_report(rep, fname, line_no, faulty.split("\n")[0], col, viol, ctx, fault)
+            tag = check_report(rep, fname, line_no, faulty.split("\n")[off], col, viol, ctx, fault)
             outcomes.add(tag)
             if example is None and tag == "located" and at > 2:
                 example = {"source": src, "files": files, "report": rep}
